@@ -145,9 +145,22 @@ impl ZerokitMerkleTree for PmTree {
             Err(_) => pmtree::MerkleTree::new(depth, config.0)?,
         };
 
+        // A loaded tree already holds leaves: the positions below the high-water mark whose stored
+        // leaf is not the default one are not empty
+        let mut cached_leaves_indices = vec![0; tree.capacity()];
+        for (i, flag) in cached_leaves_indices
+            .iter_mut()
+            .enumerate()
+            .take(tree.leaves_set())
+        {
+            if tree.get(i)? != Self::Hasher::default_leaf() {
+                *flag = 1;
+            }
+        }
+
         Ok(PmTree {
             tree,
-            cached_leaves_indices: vec![0; 1 << depth],
+            cached_leaves_indices,
             metadata: Vec::new(),
         })
     }
